@@ -70,9 +70,9 @@ CLAIMED["C04"]["engine"] = "channel+transport"
 CLAIMED["C04"]["tech"] += "; plus TLA+ model Transport.tla (contract of a transport pair: FIFO, no loss before the close is reported) enumerated by TLC, every operation sequence executed on real in-process / TCP / WebSocket pairs, TLC monitor TransObs (C04_TransportOrder, C04_TransportNoLoss)"
 CLAIMED["C13"]["engine"] = "channel+transport"
 CLAIMED["C13"]["tech"] += "; plus Transport.tla sequences on real pairs, TLC monitor TransObs (C13_TransportClosed: an end that closed refuses to send and receive and reports itself as not connected)"
-CLAIMED["C06"]["engine"] = "hs-server+hs-client"
-CLAIMED["C06"]["note"] = HS_NOTE + " Both roles: server role on HsServer behaviours, client role on HsClient behaviours."
-CLAIMED["C06"]["tech"] += " and HsClient.tla + C06_ClientSendGuard for the client role"
+CLAIMED["C06"]["engine"] = "hs-server+hs-client+channel"
+CLAIMED["C06"]["note"] = HS_NOTE + " Both roles: server role on HsServer behaviours, client role on HsClient behaviours. Established phase: free runs of real sessions (channel engine), sampled schedules."
+CLAIMED["C06"]["tech"] += " and HsClient.tla + C06_ClientSendGuard for the client role; for the end of the established phase Channel.tla (invariant NoDataAfterFinished) checked by TLC and real sessions ended idle / during traffic over five transports with a wire tap on the terminating server and send attempts by both sides afterwards, TLC monitor ChanObs (C06_QuietAfterEnd, C06_NoSendAfterEnd)"
 CLAIMED["C09"]["engine"] = "hs-server+hs-client"
 CLAIMED["C09"]["note"] = HS_NOTE + " Library server against scripted client and library client against scripted server."
 CLAIMED["C09"]["tech"] += " and HsClient.tla + C09_ClientUpgrade for the client role"
